@@ -110,7 +110,12 @@ def c10(ctx):
 
 
 def random_poll_traces(ctx, n):
-    return run_script(ctx, gen.random_poll(ctx.rng, n), "random-poll")
+    r = run_script(ctx, gen.random_poll(ctx.rng, n), "random-poll")
+    # the same clauses with the monitor state defined DECLARATIVELY over the recorded history
+    # ("the most recent controller-6 byte", "a poll after its deadline has happened since", ...)
+    run_script(ctx, gen.random_poll(ctx.rng, ctx.q(8000, 50000), seg=200, bursts=False), "random-poll-history",
+               history=True)
+    return r
 
 
 def c13(ctx):
